@@ -13,6 +13,7 @@ def gwScript (s : String) : Script :=
     | 'w' :: '=' :: r => { sc with wr := r }
     | 'r' :: '=' :: r => { sc with rd := r }
     | 'v' :: '=' :: r => { sc with env := r }
+    | 'u' :: '=' :: r => { sc with upg := r }
     | _ => sc) {}
 
 def gwFields (s : String) : List String := (s.splitOn ".").filter (· ≠ "")
